@@ -431,7 +431,7 @@ func init() {
 		ID:    "C09",
 		Level: "exploration",
 		Rule: "all sequences of length 0..4 over an 18-symbol alphabet of rewrite shapes (A short/full, CNAME short/full, RCODE, MX, HTTPS, NS (a type without value parser) x important x exception, empty exceptions) " +
-			"[thorough: also length 5..6 over 7 symbols and length 5 over 16], plus PRNG-sampled sequences of length 5..12 over all ~90 shape variants, each fed as fresh rule objects to DNSResult.DNSRewrites and, sampled, through DNSEngine.MatchRequest; " +
+			"[thorough: also length 5..6 over 7 symbols and length 5 over 16], plus PRNG-sampled sequences of length 5..12 (one in four: 13..52) over all ~90 shape variants, each fed as fresh rule objects to DNSResult.DNSRewrites and, sampled, through DNSEngine.MatchRequest; " +
 			"oracle = reference filter of DNSRewritesAll() compared as sequences of rule texts (and object identity); non-trivial = sequence with at least one exception and one rewrite; distinct by sequence",
 		Assumptions: []string{
 			"a keyword NOERROR exception parses to the empty value; it is not generated as an exception (declared don't-care)",
@@ -460,6 +460,12 @@ func init() {
 			// Sampled part.
 			for k := 0; k < 32; k++ {
 				l := 5 + c.Rng.Intn(8)
+				if k%4 == 3 {
+					// Well beyond every small-slice special case of sorting and
+					// partitioning helpers (insertion sort up to 12 elements,
+					// growth steps of append): the order of the survivors counts.
+					l = 13 + c.Rng.Intn(40)
+				}
 				seq := make([]c09Shape, l)
 				// Bias towards a few values so that exceptions meet rewrites.
 				pool := c09Full
